@@ -23,6 +23,7 @@ func Generated(rep *mbt.Report, tier string) []corpus.Input {
 		}
 	}
 	out = append(out, Families(rep, tier)...)
+	out = append(out, BuildPrograms(rep, tier)...)
 	return out
 }
 
